@@ -28,6 +28,7 @@ semantics  : Python int = Coq Z.  // is Z.div and % is Z.modulo (both floor, sig
 """
 import ast
 import sys
+import warnings
 
 RESERVED = {"return", "end", "in", "at", "as", "fun", "match", "with", "if", "then", "else",
             "let", "fix", "forall", "exists", "Type", "Set", "Prop", "where", "for", "mod",
@@ -520,7 +521,9 @@ def translate_unit(repo, unit):
     calls = {}
     for spec in unit["functions"]:
         with open(repo + "/" + spec["file"]) as f:
-            tree = ast.parse(f.read())
+            with warnings.catch_warnings():          # invalid escapes in rig's docstrings
+                warnings.simplefilter("ignore")
+                tree = ast.parse(f.read())
         node = find_function(tree, spec["name"])
         text = Fn(node, spec, calls).translate()
         out.append("(* %s : %s, line %d *)" % (spec["file"], spec["name"], node.lineno))
